@@ -226,6 +226,7 @@ func TestC19(t *testing.T) {
 		Assumptions: []string{"literal differential: agreement with the documented semantics is C01/C02's job"},
 		Gen:         genC19,
 		Run:         runC19,
+		CaseTimeout: 5 * time.Minute,
 		QuickChecks: 8000, ThoroughFactor: 8,
 	})
 }
